@@ -427,12 +427,13 @@ ebpps_sketch<T,A> ebpps_sketch<T,A>::deserialize(const void* bytes, size_t size,
   ptr += copy_from_mem(ptr, wt_max);
   double rho;
   ptr += copy_from_mem(ptr, rho);
+  check_weights(cumulative_wt, wt_max, rho);
 
   auto pair = ebpps_sample<T, A>::deserialize(ptr, end_ptr - ptr, sd, allocator);
   ebpps_sample<T, A> sample = pair.first;
   ptr += pair.second;
 
-  if (sample.has_partial_item() != bool(flags & HAS_PARTIAL_ITEM_MASK))
+  if (sample.has_partial_item() != bool(flags & HAS_PARTIAL_ITEM_MASK) || sample.get_c() >= k + 1.0)
     throw std::runtime_error("sketch fails internal consistency check");
 
   return ebpps_sketch(k, n, cumulative_wt, wt_max, rho, std::move(sample), allocator);
@@ -460,10 +461,11 @@ ebpps_sketch<T,A> ebpps_sketch<T,A>::deserialize(std::istream& is, const SerDe& 
   const double cumulative_wt = read<double>(is);
   const double wt_max = read<double>(is);
   const double rho = read<double>(is);
+  check_weights(cumulative_wt, wt_max, rho);
 
   auto sample = ebpps_sample<T,A>::deserialize(is, sd, allocator);
 
-  if (sample.has_partial_item() != bool(flags & HAS_PARTIAL_ITEM_MASK))
+  if (sample.has_partial_item() != bool(flags & HAS_PARTIAL_ITEM_MASK) || sample.get_c() >= k + 1.0)
     throw std::runtime_error("sketch fails internal consistency check");
 
   return ebpps_sketch(k, n, cumulative_wt, wt_max, rho, std::move(sample), allocator);
@@ -475,6 +477,22 @@ inline uint32_t ebpps_sketch<T, A>::check_k(uint32_t k)
   if (k == 0 || k > MAX_K)
     throw std::invalid_argument("k must be strictly positive and less than " + std::to_string(MAX_K));
   return k;
+}
+
+template<typename T, typename A>
+void ebpps_sketch<T, A>::check_weights(double cumulative_wt, double wt_max, double rho) {
+  if (cumulative_wt < 0.0 || std::isnan(cumulative_wt) || std::isinf(cumulative_wt)) {
+    throw std::invalid_argument("Possible corruption: cumulative weight must be nonnegative and finite. Found: "
+      + std::to_string(cumulative_wt));
+  }
+  if (wt_max < 0.0 || std::isnan(wt_max) || std::isinf(wt_max)) {
+    throw std::invalid_argument("Possible corruption: maximum weight must be nonnegative and finite. Found: "
+      + std::to_string(wt_max));
+  }
+  if (!(rho >= 0.0 && rho <= 1.0)) {
+    throw std::invalid_argument("Possible corruption: rho must be in [0.0, 1.0]. Found: "
+      + std::to_string(rho));
+  }
 }
 
 template<typename T, typename A>
